@@ -649,6 +649,11 @@ class Repo:
                 m, rest = self.modules[mn], parts[i:]
                 if len(rest) == 1 and rest[0] in m.funcs:
                     return m.funcs[rest[0]]
+                if len(rest) == 1 and rest[0] in m.imports and m.imports[rest[0]][1]:
+                    # the function was moved to another module of the package and imported back under the same name
+                    src = self.modules.get(m.imports[rest[0]][0])
+                    if src is not None and m.imports[rest[0]][1] in src.funcs:
+                        return src.funcs[m.imports[rest[0]][1]]
                 if len(rest) == 2 and rest[0] in m.classes and rest[1] in m.classes[rest[0]].methods:
                     return m.classes[rest[0]].methods[rest[1]]
         raise AnalysisError(f"function {qual} not found (anchor vanished)")
